@@ -45,9 +45,8 @@ func vC06Cb3(t *vT06, i int) int { vC06Seen, vC06SeenN = t, t.n; return i + 4000
 var vC06Cbs = [4]interface{}{vC06Cb0, vC06Cb1, vC06Cb2, vC06Cb3}
 
 // the symbol lookup itself is the subject of C10: exact address for the names of the
-// corpus, an error for every other name
-//
-//verif:stub github.com/tencent/goom/internal/unexports2.FindFuncByName
+// corpus, an error for every other name (the stub directive is on vW06FindFuncByName,
+// which falls back to this table)
 func vC06FindFuncByName(name string) (uintptr, error) {
 	switch name {
 	case "github.com/tencent/goom.(*vT06).Get":
@@ -177,8 +176,11 @@ func VC_C06_two() {
 
 type vV06 struct{ n, m int }
 
-func (v vV06) Val(i int) int   { return 6 }
-func (v vV06) Value(i int) int { return 7 }
+func (v vV06) Val(i int) int      { return 6 }
+func (v vV06) Value(i int) int    { return 7 }
+func (v *vV06) PtrOnly(i int) int { return 8 }
+
+func vC06CbP(v *vV06, i int) int { return i + 6000 }
 
 var vC06SeenV vV06
 
@@ -191,8 +193,26 @@ func VC_C06_value_receiver() {
 	vEnv()
 	vPristine(vV06.Val)
 	vPristine(vV06.Value)
+	vPristine((*vV06).PtrOnly)
+	// the compiler-generated pointer-receiver wrappers are functions of their own
+	vPristine((*vV06).Val)
+	vPristine((*vV06).Value)
+	verifApart(verifFuncCode(vV06.Val), verifFuncCode((*vV06).Val), 32)
+	verifApart(verifFuncCode(vV06.Value), verifFuncCode((*vV06).Val), 32)
+	verifApart(verifFuncCode((*vV06).PtrOnly), verifFuncCode((*vV06).Val), 32)
 	verifApart(verifFuncCode(vV06.Val), verifFuncCode(vV06.Value), 32)
+	verifApart(verifFuncCode(vV06.Val), verifFuncCode((*vV06).PtrOnly), 32)
+	verifApart(verifFuncCode(vV06.Value), verifFuncCode((*vV06).PtrOnly), 32)
 	b := Create()
+	// the pointer form of the same type may have been looked up (or its pointer-only
+	// method mocked) in the same builder before: the value form is another method set
+	before := verifChoice("pointerFormBefore", 3)
+	if before == 1 {
+		b.Struct(&vV06{})
+	} else if before == 2 {
+		b.Struct(&vV06{}).Method("PtrOnly").Apply(vC06CbP)
+		verifAssert(vDiverted((*vV06).PtrOnly), "C06.value.pointer-only-method-mocked")
+	}
 	mark := verifImgBytesWritten()
 	b.Struct(vV06{}).Method("Val").Apply(vC06CbV)
 	e := verifFuncCode(vV06.Val)
@@ -201,6 +221,7 @@ func VC_C06_value_receiver() {
 	}
 	verifAssert(vDiverted(vV06.Val), "C06.value.named-method-mocked")
 	verifAssert(!vDiverted(vV06.Value), "C06.value.other-methods-untouched")
+	verifAssert(!vDiverted((*vV06).Val), "C06.value.wrapper-untouched")
 	f, ok := vInvoke(vV06.Val, "C06.value").(func(vV06, int) int)
 	verifAssert(ok, "C06.value.installed-has-method-signature")
 	if ok {
@@ -213,7 +234,6 @@ func VC_C06_value_receiver() {
 	verifAssert(!vDiverted(vV06.Val) && !vDiverted(vV06.Value), "C06.value.reset-restores")
 	verifReached("C06.value")
 }
-
 
 // vOther06get stands for the method get of a struct that is also called vT06 but lives in
 // another package ("other/pkg.(*vT06).get").
@@ -255,4 +275,91 @@ func VC_C06_same_name_other_package() {
 	b.Reset()
 	verifAssert(!vDiverted((*vT06).get) && !vDiverted(vOther06get), "C06.pkg.reset-restores")
 	verifReached("C06.pkg")
+}
+
+// names whose last letters collide with goom's own suffix handling ("-fm" is the suffix of
+// method values): log/logf, su/sum, and one without a shorter sibling
+type vW06 struct{ n int }
+
+func (w *vW06) log(i int) int     { return 1 }
+func (w *vW06) logf(i int) int    { return 2 }
+func (w *vW06) su(i int) int      { return 3 }
+func (w *vW06) sum(i int) int     { return 4 }
+func (w *vW06) confirm(i int) int { return 5 }
+
+var vW06Names = [5]string{"log", "logf", "su", "sum", "confirm"}
+
+func vW06Method(k int) interface{} {
+	switch k {
+	case 0:
+		return (*vW06).log
+	case 1:
+		return (*vW06).logf
+	case 2:
+		return (*vW06).su
+	case 3:
+		return (*vW06).sum
+	}
+	return (*vW06).confirm
+}
+
+func vW06Cb(w *vW06, i int) int { return i + 7000 }
+
+//verif:stub github.com/tencent/goom/internal/unexports2.FindFuncByName
+func vW06FindFuncByName(name string) (uintptr, error) {
+	for k := 0; k < 5; k++ {
+		if name == "github.com/tencent/goom.(*vW06)."+vW06Names[k] {
+			return verifFuncCode(vW06Method(k)), nil
+		}
+	}
+	return vC06FindFuncByName(name)
+}
+
+// VC_C06_suffix_names: unexported methods whose names end in letters goom treats
+// specially elsewhere: exactly the named one is mocked (or the mock is refused), never a
+// shorter-named sibling.
+func VC_C06_suffix_names() {
+	vEnv()
+	for k := 0; k < 5; k++ {
+		vPristine(vW06Method(k))
+		for j := 0; j < k; j++ {
+			verifApart(verifFuncCode(vW06Method(k)), verifFuncCode(vW06Method(j)), 32)
+		}
+	}
+	b := Create()
+	k := verifChoice("method", 5)
+	panicked := false
+	func() {
+		defer func() {
+			if r := recover(); r != nil {
+				panicked = true
+			}
+		}()
+		if verifBool("byStructName") {
+			b.ExportStruct("*vW06").Method(vW06Names[k]).Apply(vW06Cb)
+		} else {
+			b.Struct(&vW06{}).ExportMethod(vW06Names[k]).Apply(vW06Cb)
+		}
+	}()
+	verifAssert(!panicked, "C06.suffix.accepted")
+	for j := 0; j < 5; j++ {
+		if j == k {
+			verifAssert(panicked || vDiverted(vW06Method(j)), "C06.suffix.named-method-mocked")
+		} else {
+			verifAssert(!vDiverted(vW06Method(j)), "C06.suffix.other-methods-untouched")
+		}
+	}
+	if !panicked && vDiverted(vW06Method(k)) {
+		f, ok := vInvoke(vW06Method(k), "C06.suffix").(func(*vW06, int) int)
+		verifAssert(ok, "C06.suffix.installed-has-method-signature")
+		if ok {
+			x := verifInt("x")
+			verifAssert(f(&vW06{}, x) == x+7000, "C06.suffix.own-callback")
+		}
+	}
+	b.Reset()
+	for j := 0; j < 5; j++ {
+		verifAssert(!vDiverted(vW06Method(j)), "C06.suffix.reset-restores")
+	}
+	verifReached("C06.suffix")
 }
